@@ -87,8 +87,23 @@ def reqLocal (sd : StructDef) : Bool := sd.fields.all reqLocalField
 
 def reqLocalModule (m : Module) : Bool := m.structs.all reqLocal
 
+/-- `sd` and every structure reachable from it through fields of structure / `bits` type satisfy
+the per-structure hypotheses of the refinement theorems (depth-bounded search; structure types do
+not nest recursively in Emboss, so a depth ≥ the number of structures is exhaustive). -/
+def reachOK (m : Module) : Nat → StructDef → Bool
+  | 0, _ => false
+  | d + 1, sd =>
+    refStruct m sd && reqLocal sd &&
+    sd.fields.all (fun f =>
+      match f.kind with
+      | .phys _ _ (.struct name _ _) _ =>
+        (match m.find name with
+         | some sd' => reachOK m d sd'
+         | none => true)
+      | _ => true)
+
 /-- the structure satisfies every decidable hypothesis of the refinement theorems -/
-def structInFragment (m : Module) (sd : StructDef) : Bool := refStruct m sd && reqLocal sd
+def structInFragment (m : Module) (sd : StructDef) : Bool := reachOK m (m.structs.length + 1) sd
 
 def moduleInFragment (m : Module) : Bool := refModule m && reqLocalModule m && moduleWF m
 
